@@ -447,6 +447,9 @@ func main() {
 	}
 
 	if *update {
+		if len(staleUnits) > 0 {
+			fmt.Fprintf(os.Stderr, "WARNING: --update-baseline while %d unit(s) are stale: their obligations are NOT in the ledger that is written now; fix the contract (or run again if only the baseline format changed) before relying on it\n", len(staleUnits))
+		}
 		var ls []string
 		for _, n := range names {
 			l := byName[n]
